@@ -211,6 +211,9 @@ def run_check(chk, tier, seed, replay=None):
                 known_hits.setdefault(fj["key"], fj)
             else:
                 violations.append((f"unlisted deviation {fj['key']}: {fj.get('note','')}", fj.get("file")))
+    if chk.get("collect"):
+        violations.extend(chk["collect"](jobs, results))
+        crashes = [(j, rc) for j, rc in crashes if not j.get("own_artifacts")]
     for j, rc in crashes:
         # a harness process died (signal / sanitizer abort): the per-case file written before execution is the reproduction
         cand = os.path.join(j["faildir"], "current.case")
@@ -229,7 +232,11 @@ def run_check(chk, tier, seed, replay=None):
         if dest in seen_files:
             continue
         seen_files.add(dest)
-        shutil.copyfile(f, dest)
+        if os.path.isdir(f):
+            shutil.rmtree(dest, ignore_errors=True)
+            shutil.copytree(f, dest)
+        else:
+            shutil.copyfile(f, dest)
         ok = 0
         for _ in range(3):
             bad = False
